@@ -1108,8 +1108,11 @@ def run_seg_history(cfg, kind, ops):
     zs = [3 - 2j, 0.5 + 4j, -1 - 1j]
     zi = 0
     hcount = {}
-    last_len = None            # (arguments, canonical value) of the previous length call on this object
-    reassigned = False         # a control point was reassigned since
+    # (arguments, canonical value, control data at that time) of the previous length call on this
+    # object.  A stale KEY is judged by the control points: the same value coming back for the same
+    # arguments although the control points now differ from those it was obtained for.  Reassigning a
+    # control point away and back restores them: that is a legitimate cache hit.
+    last_len = None
     cops, cobs, cdatas = [], [], {seg_data(s)}
     init_data = seg_data(s)
 
@@ -1132,7 +1135,6 @@ def run_seg_history(cfg, kind, ops):
             if o == 'c1' and k0 not in ('Q', 'C'):
                 continue
             cops.append((o, z))
-            reassigned = True
             if o == 'start':
                 s.start = z
             elif o == 'end':
@@ -1180,8 +1182,11 @@ def run_seg_history(cfg, kind, ops):
             if got != want:
                 known = c is not None and c[0] == 'C'
                 same_tol = (not kw) or not known or c[2] == (kw['error'], kw['min_depth'])
-                if reassigned and last_len == ((a, tuple(sorted(kw.items()))), got) and not inherited:
-                    # the value from before the reassignment, for the same arguments
+                if not inherited and (
+                        (known and kw and c[1] != seg_data(s) and canon(c[3]) == got) or
+                        (not known and last_len is not None and last_len[:2] == ((a, tuple(sorted(kw.items()))), got)
+                         and last_len[2] != seg_data(s))):
+                    # the entry is for OTHER control points than the current ones, yet it was used
                     key = 'segment-length-cache-key-stale'
                 elif c is not None and c[0] == '?':
                     key = 'segment-length-cache-unknown'
@@ -1198,7 +1203,7 @@ def run_seg_history(cfg, kind, ops):
                 viols.append((key, '%s %s: length%r %r = %r, fresh segment %r' % (kind, list(ops[:i + 1]), a, kw, got, want), i))
             if recomputed:
                 inherited = False
-            last_len, reassigned = ((a, tuple(sorted(kw.items()))), got), False
+            last_len = ((a, tuple(sorted(kw.items()))), got, seg_data(s))
         elif o in ('rev', 'revkeep'):
             stale = False
             if k0 in ('C', 'Q'):
